@@ -62,7 +62,19 @@ static scpi_result_t h_generic(scpi_t * c) {
     if (ukind[k].res == 2) SCPI_ErrorPush(c, -222);
     return ukind[k].res ? SCPI_RES_ERR : SCPI_RES_OK;
 }
+/* a query with very many result items (item accounting must not wrap) */
+static scpi_result_t h_big(scpi_t * c) {
+    int32_t n = 0, i;
+    int16_t * a;
+    if (!SCPI_ParamInt32(c, &n, TRUE)) return SCPI_RES_ERR;
+    a = (int16_t *) malloc(sizeof (int16_t) * (size_t) n);
+    for (i = 0; i < n; i++) a[i] = (int16_t) (i % 7);
+    if (n & 1) SCPI_ResultArrayInt16(c, a, (size_t) n, SCPI_FORMAT_ASCII); else for (i = 0; i < n; i++) SCPI_ResultInt32(c, a[i]);
+    free(a);
+    return SCPI_RES_OK;
+}
 static const scpi_command_t cmds[] = {
+    {"QBIG?", h_big, 99},
     {"C0", h_generic, U_C0}, {"CE", h_generic, U_CE}, {"Q0?", h_generic, U_Q0}, {"Q1?", h_generic, U_Q1}, {"Q2?", h_generic, U_Q2}, {"Q4?", h_generic, U_Q4},
     {"Q0E?", h_generic, U_Q0E}, {"Q1E?", h_generic, U_Q1E}, {"Q2X?", h_generic, U_Q2X}, {"Q1P?", h_generic, U_Q1P}, {"Q0P?", h_generic, U_Q0P}, {"Q0X?", h_generic, U_Q0X},
     {"Q4E?", h_generic, U_Q4E}, {"QPART?", h_generic, U_QPART},
@@ -152,6 +164,29 @@ int main(int argc, char ** argv) {
             }
             for (i = k - 1; i >= 0; i--) { if (++units[i] < NKIND) break; units[i] = 0; }
             if (i < 0) break;
+        }
+    }
+    {   /* units with 254..1025 result items, alone and between two other responding units */
+        static const int counts[] = {254, 255, 256, 257, 258, 300, 511, 512, 513, 1000, 1024, 1025};
+        int ci, form;
+        for (ci = 0; ci < 12; ci++) for (form = 0; form < 2; form++) {
+            char msg[64], * exp = (char *) malloc(8192);
+            size_t el = 0; int i, ml;
+            if (!MC_CASE()) { free(exp); continue; }
+            mc_case_tag = "many-items"; mc_case_i[0] = counts[ci]; mc_case_i[1] = form;
+            ml = sprintf(msg, form ? "Q1?;QBIG? %d;Q1?\n" : "QBIG? %d\n", counts[ci]);
+            tc_reinit(&T, cmds); rot_impl = 0; tr_reset();
+            SCPI_Input(&T.ctx, msg, ml);
+            n_msgs++;
+            if (form) { memcpy(exp, "7;", 2); el = 2; }
+            for (i = 0; i < counts[ci]; i++) { if (i) exp[el++] = ','; exp[el++] = (char) ('0' + i % 7); }
+            if (form) { memcpy(exp + el, ";#HFF", 5); el += 5; }
+            memcpy(exp + el, "\r\n", 2); el += 2;
+            if (OUTN != el || memcmp(OUT, exp, el)) {
+                size_t k = 0; while (k < OUTN && k < el && OUT[k] == exp[k]) k++;
+                mc_viol("c06/item-separator/many-items", "message [%s]: output differs from the model at offset %d: got [%s], expected [%s]", mc_e(msg, (size_t) ml), (int) k, mc_e(OUT + (k > 6 ? k - 6 : 0), 14), mc_e(exp + (k > 6 ? k - 6 : 0), 14));
+            } else { n_responding++; }
+            free(exp);
         }
     }
     if (mc_shard == 0) {
